@@ -85,6 +85,14 @@ func c11Writers() []c11Writer {
 		{name: "flip(B:v2->v1)+markfp", ops: []func(*PebbleScanner, *storeProbes){add("B", 1),
 			func(s *PebbleScanner, sp *storeProbes) { s.MarkFalsePositive("B", "n") }}},
 		{name: "flip(A:v1->v2)", ops: []func(*PebbleScanner, *storeProbes){add("A", 2)}},
+		// an update that keeps both hashes (so every index KEY stays) and changes only what the index
+		// VALUES carry: entropy score and tolerance
+		{name: "retune(A:same hashes, entropy 4.99994/0.5 -> 5.6/0.05)", ops: []func(*PebbleScanner, *storeProbes){
+			func(s *PebbleScanner, sp *storeProbes) {
+				a := c11SigV(sp, "A", 1)
+				a.Name, a.EntropyScore, a.EntropyTolerance = "A.retuned", 5.6, 0.05
+				s.AddSignature(&a)
+			}}},
 	}
 }
 
@@ -114,6 +122,11 @@ func c11Scenarios() []c11Scenario {
 	for _, ws := range [][]int{{0, 2}, {1, 2}, {0, 1}, {4, 2}, {5, 2}, {5, 1}, {0, 5}} {
 		sc = append(sc, c11Scenario{writers: ws, bound: map[string]int{"quick": 2, "thorough": 4}})
 	}
+	// (appended last: replay files name scenarios by position)
+	for _, r := range []int{0, 1, 3} {
+		sc = append(sc, c11Scenario{readers: []int{r}, writers: []int{6}, bound: map[string]int{"quick": 2, "thorough": -1}})
+	}
+	sc = append(sc, c11Scenario{writers: []int{6, 2}, bound: map[string]int{"quick": 2, "thorough": 4}})
 	return sc
 }
 
